@@ -100,6 +100,39 @@ CHECKS = {
             "ids: signature verifies independently under the right watermark, payload and hash recomputed "
             "independently, mixed passes rejected.",
             "Forged bytes come from the reference codec of C06 (endorsement: branch || 00 || level).", "9/C23"),
+    "C03": ("hypothesis PBT, differential vs reference total order + order axioms + collection literals/UPDATE",
+            "Comparable types to depth 2/3 with near-by value pairs/triples: COMPARE sign vs reference order, "
+            "antisymmetry, reflexivity, transitivity; sorted set/map literals accepted and kept, UPDATE-built sets "
+            "sorted, unsorted/duplicate literals rejected.",
+            "Reference order written from script_comparable / Signature / Destination compare; three sub-cases are "
+            "left unconstrained in direction (P-256 keys of different parity, signatures of different length, default "
+            "entrypoint vs a name sorting below 'default').", "9/C03"),
+    "C04": ("hypothesis PBT differential vs reference PACK + byte mutations + atheris campaign on UNPACK",
+            "pack() and PACK == reference bytes; unpack/UNPACK invert; mutated strings the strict reference decoder "
+            "rejects make UNPACK return None and unpack raise; thorough adds a coverage-guided campaign with the "
+            "oracle in the target.",
+            "Annotation-free types (annotations are C17's subject); lambda bodies without optimizable literals.", "9/C04"),
+    "C10": ("hypothesis PBT, reference byte layout + round trip in bytes space + helper inverses",
+            "Domain values alone and nested: optimized bytes equal the reference layout, read back to the same value, "
+            "forge/unforge helpers are inverse, blind_unpack of fixed-length forms returns the encoded kind.",
+            "txr1 addresses are exercised under pytezos' own tx_rollup_l2_address type; blind_unpack is judged only "
+            "on fixed-length forms (an address+entrypoint can be byte-identical to a public key).", "9/C10"),
+    "C11": ("hypothesis PBT, round trip through readable/optimized/legacy_optimized with reference parser as validity predicate",
+            "Every type shape incl. big_map literals, full-range timestamps, huge ints, combs 2..7 in four input "
+            "spellings: each rendering re-parses to the same optimized form and denotes the original value under an "
+            "independent parser (strict RFC 3339).",
+            "big_map literals are rendered with lazy_diff=None (the documented way to obtain the literal).", "9/C11"),
+    "C16": ("exhaustive boundary cross product + hypothesis values vs reference big-int arithmetic",
+            "All 43 (instruction, operand types) combinations over the full cross product of boundary sets plus random "
+            "values to 4096 bits: result type, value, exact failure and None conditions, BYTES/INT/NAT inverse laws.",
+            "Bitwise/shift forms on bytes and SUB mutez mutez are outside the implemented instruction set and are "
+            "excluded (listed in the evidence).", "9/C16"),
+    "C21": ("hypothesis PBT of group/field laws against scalar arithmetic mod r and own point serialisation",
+            "G1/G2 points kG (k=0 infinity, 1, 2, r-1, full-width), Fr scalars incl. 0, r-1, r, r+1, negatives: "
+            "addition, negation, scalar multiplication, associativity, distributivity, Fr ring ops, INT, encodings, "
+            "PAIRING_CHECK on balanced/perturbed/empty/infinity lists.",
+            "Expected points are computed with py_ecc (same library pytezos uses) along a different computation path "
+            "and serialised by the check itself.", "9/C21"),
 }
 
 NOT_BUILT = {}
